@@ -319,6 +319,16 @@ func isRecursive(fn *ssa.Function, stack []*Frame) bool {
 }
 
 func (v *Verifier) callFn(st *State, in *ssa.Call, fn *ssa.Function, bindings []*Term, args []*Term) bool {
+	if fn.Blocks != nil && !inRepoFn(fn) && inlineStd(fn) && !st.initMod {
+		// the standard library's small iterator adapters are executed as compiled
+		v.assumeNote("standard library function executed as compiled (inlined): " + funcKey(fn))
+		fr := &Frame{fn: fn, block: fn.Blocks[0], call: in, visits: map[int]int{}, cuts: map[int]*cutInfo{}, bindings: bindings}
+		for i, p := range fn.Params {
+			st.env[p] = args[i]
+		}
+		st.frames = append(st.frames, fr)
+		return true
+	}
 	if fn.Blocks == nil || !inRepoFn(fn) {
 		// a dependency with an assumed (trusted) contract written in the repository
 		if c := v.contractFor(fn); c != nil && c.Trusted && !st.initMod && fn.Blocks != nil {
@@ -707,4 +717,15 @@ func underGuard(a, guard *Term) *Term {
 		}
 	}
 	return a
+}
+
+// inlineStd: iterator adapters of the standard library that are plain Go over their arguments.
+func inlineStd(fn *ssa.Function) bool {
+	k := funcKey(fn)
+	for _, p := range []string{"maps.Keys", "maps.Values", "slices.Collect", "slices.AppendSeq", "slices.Values"} {
+		if k == p || strings.HasPrefix(k, p+"$") {
+			return true
+		}
+	}
+	return false
 }
